@@ -473,11 +473,11 @@ func TestVerifC18(t *testing.T) {
 	qT = t
 	r := ev.Get("C18")
 	r.Rule("Scenario = one message (four original headers incl. folded, encoded, 8-bit, long and empty fields; normal, IDN, EAI or null sender; SMTPUTF8 or not) with 1-4 recipients (ASCII, IDN, non-ASCII " +
-		"local part; some marked as rewritten via OriginalRcpts), max_tries 1-3, scripted atomic or per-recipient target failing with error values from the shared error-tree generator (codes, " +
-		"multi-line / non-ASCII / U+0080 texts, wrappers), bounce pipeline = recording target that succeeds or fails at Start/AddRcpt/Body/Commit; run under synctest. Oracle: every report handed to the " +
+		"local part; some marked as rewritten via OriginalRcpts, some of those written with a local part that needs quoting; a sender with U+0080 in the local part), max_tries 1-3, scripted atomic or per-recipient target failing with error values from the shared error-tree generator (codes, " +
+		"multi-line / non-ASCII / U+0080 / 1500-octet texts, enhanced codes of another class or out of range, wrappers), bounce pipeline = recording target that succeeds or fails at Start/AddRcpt/Body/Commit; run under synctest. Oracle: every report handed to the " +
 		"bounce target is parsed with Go's mime/multipart + net/textproto (not go-message): null return path, recipient = sender, multipart/report with three parts of the right types, " +
 		"Final-Recipient set = recipients the C01 model says failed terminally in that attempt under their original addresses, Action failed, Status/Diagnostic-Code classes agree with the last " +
-		"error, third part = original header; none for a null sender; failing report delivery is aborted and yields no further report. " +
+		"error, third part = original header, no line over 998 octets, Final-Recipient is a mailbox; none for a null sender; a report delivery failing before Commit is aborted, one failing at Commit is not ended a second time, neither yields a further report. " +
 		"Non-trivial = >=2 failed recipients, or a failed recipient that is rewritten / IDN / has a multi-line or non-ASCII diagnostic. Distinct = distinct scenario.")
 	r.Assume("8-bit text inside a non-EAI message/delivery-status part is not counted as ill-formed; the enhanced-code detail digits (x.Y.Z) of downstream errors are not asserted")
 	ev.Run(t, r, ev.Spec[qScenario]{Name: "reports", N: r.N, Gen: c18Gen, Run: c18Run, Info: c18Info})
